@@ -53,8 +53,13 @@ theorem resolve_nodup {s : St α} (h : BInv s) (r : Ref) : (s.resolve r).Nodup :
       | none => simp [hl]
       | some l => simpa [hl] using h.1 S b ci l hb hl
 
-/-- `kids[i] ∈ pool i` -/
-def KidsIn (s : St α) (ps : List Ref) (kids : List Prog) : Prop := All2 (fun r k => k ∈ s.resolve r) ps kids
+/-- `kids[i] ∈ pool i` now -/
+def KidsNow (s : St α) (ps : List Ref) (kids : List Prog) : Prop := All2 (fun r k => k ∈ s.resolve r) ps kids
+
+/-- `kids[i] ∈ pool i`, or `kids[i]` has been deleted since (`merge_program` removes programs from the banks and puts
+    them in `_deleted`) -/
+def KidsIn (s : St α) (ps : List Ref) (kids : List Prog) : Prop :=
+  All2 (fun r k => k ∈ s.resolve r ∨ k ∈ s.deleted) ps kids
 
 theorem All2.imp {β γ : Type} {R R' : β → γ → Prop} (hi : ∀ x y, R x y → R' x y) {l1 : List β} {l2 : List γ}
     (h : All2 R l1 l2) : All2 R' l1 l2 := by
@@ -62,8 +67,18 @@ theorem All2.imp {β γ : Type} {R R' : β → γ → Prop} (hi : ∀ x y, R x y
   | nil => exact .nil
   | cons h1 _ ih => exact .cons (hi _ _ h1) ih
 
+theorem KidsNow.weak {s : St α} {ps : List Ref} {kids : List Prog} (h : KidsNow s ps kids) : KidsIn s ps kids :=
+  All2.imp (fun _ _ hk => Or.inl hk) h
+
 /-- growth of the banks -/
 def BMono (s s' : St α) : Prop := ∀ S c q, InBankAt s S c q → InBankAt s' S c q
+
+/-- growth of `_deleted` -/
+def DSub (s s' : St α) : Prop := ∀ p ∈ s.deleted, p ∈ s'.deleted
+
+theorem DSub.refl (s : St α) : DSub s s := fun _ h => h
+theorem DSub.trans {s1 s2 s3 : St α} (h1 : DSub s1 s2) (h2 : DSub s2 s3) : DSub s1 s3 := fun p h => h2 p (h1 p h)
+theorem DSub.of_eq {s s' : St α} (h : s'.deleted = s.deleted) : DSub s s' := by intro p hp; rw [h]; exact hp
 
 theorem BMono.refl (s : St α) : BMono s s := fun _ _ _ h => h
 theorem BMono.trans {s1 s2 s3 : St α} (h1 : BMono s1 s2) (h2 : BMono s2 s3) : BMono s1 s3 :=
@@ -77,10 +92,11 @@ theorem BMono.resolve {s s' : St α} (h : BMono s s') (r : Ref) (k : Prog) (hk :
   obtain ⟨S, ci, rfl, hi⟩ := mem_resolve hk
   exact (mem_resolve_iff s' S ci k).mpr (h S ci k hi)
 
-theorem KidsIn.mono {s s' : St α} (h : BMono s s') {ps : List Ref} {kids : List Prog} (hk : KidsIn s ps kids) :
-    KidsIn s' ps kids := All2.imp (fun r k => h.resolve r k) hk
+theorem KidsIn.mono {s s' : St α} (h : BMono s s') (hd : DSub s s') {ps : List Ref} {kids : List Prog} (hk : KidsIn s ps kids) :
+    KidsIn s' ps kids :=
+  All2.imp (fun r k hrk => hrk.elim (fun a => Or.inl (h.resolve r k a)) (fun a => Or.inr (hd k a))) hk
 
-theorem cartesian_kidsIn (s : St α) : ∀ (ps : List Ref) (tup : List Prog), tup ∈ cartesian (ps.map s.resolve) → KidsIn s ps tup
+theorem cartesian_kidsIn (s : St α) : ∀ (ps : List Ref) (tup : List Prog), tup ∈ cartesian (ps.map s.resolve) → KidsNow s ps tup
   | [], tup, h => by
     simp only [List.map_nil, cartesian, List.mem_singleton] at h; subst h; exact .nil
   | r :: ps, tup, h => by
@@ -104,12 +120,17 @@ theorem tinv2_okRef {s : St α} {Λ : List NT → List (List Nat)} (h : TInv2 s 
   obtain ⟨comb, _, hl, he⟩ := h3 c ps hp
   rw [he]; exact okRef_refsOf args comb hl
 
-/-- **the pools of a tuple of programs are unique** when the banks are disjoint -/
-theorem refs_unique {s : St α} (hB : BInv s) : ∀ (args : List NT) (ps ps' : List Ref) (kids : List Prog),
-    All2 okRef ps args → All2 okRef ps' args → KidsIn s ps kids → KidsIn s ps' kids → ps = ps'
+/-- deleted programs are in no bank -/
+def DelOut (s : St α) : Prop := ∀ p ∈ s.deleted, ∀ S c, ¬ InBankAt s S c p
+
+/-- **the pools of a tuple of programs are unique** when the banks are disjoint: a tuple that is in the pools `ps` now
+    was not built from other pools `ps'` before -/
+theorem refs_unique {s : St α} (hB : BInv s) (hDel : DelOut s) : ∀ (args : List NT) (ps ps' : List Ref) (kids : List Prog),
+    All2 okRef ps args → All2 okRef ps' args → KidsIn s ps kids → KidsNow s ps' kids → ps = ps'
   | [], ps, ps', kids, h1, h2, _, _ => by cases h1; cases h2; rfl
   | a :: as, ps, ps', kids, h1, h2, h3, h4 => by
-    unfold KidsIn at h3 h4
+    unfold KidsIn at h3
+    unfold KidsNow at h4
     cases h1 with
     | cons hr h1 =>
       cases h2 with
@@ -118,14 +139,15 @@ theorem refs_unique {s : St α} (hB : BInv s) : ∀ (args : List NT) (ps ps' : L
         | cons hk h3 =>
           cases h4 with
           | cons hk' h4 =>
-            obtain ⟨S1, c1, e1, i1⟩ := mem_resolve hk
             obtain ⟨S2, c2, e2, i2⟩ := mem_resolve hk'
+            have hk1 : _ ∈ s.resolve _ := hk.elim (fun a => a) (fun a => absurd i2 (hDel _ a S2 c2))
+            obtain ⟨S1, c1, e1, i1⟩ := mem_resolve hk1
             have a1 := hr S1 c1 e1
             have a2 := hr' S2 c2 e2
             subst a1; subst a2
             have := hB.2 _ c1 c2 _ i1 i2
             subst this
-            rw [e1, e2, refs_unique hB as _ _ _ h1 h2 h3 h4]
+            rw [e1, e2, refs_unique hB hDel as _ _ _ h1 h2 h3 h4]
 
 /-- all programs `P(…)` in the banks of `S` were built from pools stored under a derivation index `< c0`, or
     under `c0` itself and in `extra` -/
@@ -137,11 +159,11 @@ theorem Consumed.mono {E : Env α} {s s' : St α} {S : NT} {P : Sym} {c0 c0' : N
     (h : Consumed E s S P c0 extra)
     (hb : ∀ kids, InBank s' S (.node P kids) → InBank s S (.node P kids))
     (hp : ∀ args c ps, PossAt s.bankDer args c ps → PossAt s'.bankDer args c ps)
-    (hr : BMono s s')
+    (hr : BMono s s') (hd : DSub s s')
     (hce : c0 < c0' ∨ (c0 = c0' ∧ ∀ ps ∈ extra, ps ∈ extra')) : Consumed E s' S P c0' extra' := by
   intro args w kids hrule hin
   obtain ⟨hne, c, ps, h1, h2, h3⟩ := h args w kids hrule (hb kids hin)
-  refine ⟨hne, c, ps, hp args c ps h1, h2.mono hr, ?_⟩
+  refine ⟨hne, c, ps, hp args c ps h1, h2.mono hr hd, ?_⟩
   rcases h3 with h3 | h3
   · rcases hce with h4 | h4
     · exact Or.inl (Nat.lt_trans h3 h4)
@@ -158,10 +180,15 @@ def HeapC (E : Env α) (s : St α) : Prop :=
 def LimboC (E : Env α) (s : St α) (L : NT → List (Sym × Nat)) : Prop :=
   ∀ S P c0, (P, c0) ∈ L S → Consumed E s S P c0 []
 
+/-- every program in a bank was accepted by the filter -/
+def AccB (E : Env α) (s : St α) : Prop := ∀ S c q, InBankAt s S c q → E.filter q = true
+
 structure NInv (E : Env α) (s : St α) (L : NT → List (Sym × Nat)) : Prop where
   binv : BInv s
   heapc : HeapC E s
   limboc : LimboC E s L
+  accb : AccB E s
+  delout : DelOut s
 
 def symL (L : NT → List (Sym × Nat)) : NT → List Sym := fun S => (L S).map (·.1)
 def addL (L : NT → List (Sym × Nat)) (S : NT) (x : Sym × Nat) : NT → List (Sym × Nat) :=
@@ -174,28 +201,32 @@ theorem symL_addL (L : NT → List (Sym × Nat)) (S : NT) (P : Sym) (c : Nat) :
 
 theorem symL_noL : symL noL = noLimbo := rfl
 
-/-- transfer of the invariant to a state with the same heaps, banks that hold the same programs and more stored pools -/
+/-- transfer of the invariant to a state with the same heaps, banks that hold the same programs, the same `_deleted` and
+    more stored pools -/
 theorem ninv_transfer {E : Env α} {s s' : St α} {L : NT → List (Sym × Nat)} (h : NInv E s L)
     (hq : s'.queueNt = s.queueNt) (hB : BInv s') (hb : BMono s' s) (hr : BMono s s')
-    (hp : ∀ args c ps, PossAt s.bankDer args c ps → PossAt s'.bankDer args c ps) : NInv E s' L := by
-  refine ⟨hB, ?_, ?_⟩
+    (hp : ∀ args c ps, PossAt s.bankDer args c ps → PossAt s'.bankDer args c ps) (hdel : s'.deleted = s.deleted) :
+    NInv E s' L := by
+  refine ⟨hB, ?_, ?_, ?_, ?_⟩
   · intro S hh d hl hd
     rw [hq] at hl
-    exact (h.heapc S hh d hl hd).mono (fun kids hk => hb.inBank hk) hp hr (Or.inr ⟨rfl, fun _ h => h⟩)
+    exact (h.heapc S hh d hl hd).mono (fun kids hk => hb.inBank hk) hp hr (DSub.of_eq hdel) (Or.inr ⟨rfl, fun _ h => h⟩)
   · intro S P c0 hm
-    exact (h.limboc S P c0 hm).mono (fun kids hk => hb.inBank hk) hp hr (Or.inr ⟨rfl, fun _ h => h⟩)
+    exact (h.limboc S P c0 hm).mono (fun kids hk => hb.inBank hk) hp hr (DSub.of_eq hdel) (Or.inr ⟨rfl, fun _ h => h⟩)
+  · intro S c q hq'; exact h.accb S c q (hb S c q hq')
+  · intro p hp' S c hin; rw [hdel] at hp'; exact h.delout p hp' S c (hb S c p hin)
 
 theorem binv_of_eq {s s' : St α} (h1 : s'.bankNt = s.bankNt) (h : BInv s) : BInv s' := by
   unfold BInv InBankAt at *; rw [h1]; exact h
 
 theorem ninv_of_eq {E : Env α} {s s' : St α} {L : NT → List (Sym × Nat)} (h1 : s'.bankNt = s.bankNt)
-    (h2 : s'.bankDer = s.bankDer) (h3 : s'.queueNt = s.queueNt) (h : NInv E s L) : NInv E s' L :=
-  ninv_transfer h h3 (binv_of_eq h1 h.binv) (BMono.of_eq h1.symm) (BMono.of_eq h1) (fun _ _ _ hp => by rw [h2]; exact hp)
+    (h2 : s'.bankDer = s.bankDer) (h3 : s'.queueNt = s.queueNt) (h4 : s'.deleted = s.deleted) (h : NInv E s L) : NInv E s' L :=
+  ninv_transfer h h3 (binv_of_eq h1 h.binv) (BMono.of_eq h1.symm) (BMono.of_eq h1) (fun _ _ _ hp => by rw [h2]; exact hp) h4
 
 /-- weakening the limbo set -/
 theorem ninv_limbo {E : Env α} {s : St α} {L L' : NT → List (Sym × Nat)} (h : NInv E s L')
     (hsub : ∀ S x, x ∈ L S → x ∈ L' S) : NInv E s L :=
-  ⟨h.binv, h.heapc, fun S P c0 hm => h.limboc S P c0 (hsub S _ hm)⟩
+  ⟨h.binv, h.heapc, fun S P c0 hm => h.limboc S P c0 (hsub S _ hm), h.accb, h.delout⟩
 
 theorem mem_addL {L : NT → List (Sym × Nat)} {S : NT} {x : Sym × Nat} (S' : NT) (y : Sym × Nat) (h : y ∈ L S') :
     y ∈ addL L S x S' := by
@@ -295,6 +326,56 @@ theorem binv_append {s : St α} {S : NT} {ci : Nat} {b : AList Nat (List Prog)} 
       subst e1; subst e3
       exact absurd ⟨c2, a'⟩ hnew
     · rw [a.2.1, a'.2.1]
+
+theorem ensureBank_deleted {s s' : St α} {S : NT} {ci : Nat} (he : s.ensureBank S ci = some s') : s'.deleted = s.deleted := by
+  unfold St.ensureBank at he
+  split at he
+  · simp at he
+  · split at he
+    · simp only [Option.some.injEq] at he; subst he; rfl
+    · simp only [Option.some.injEq] at he; subst he; rfl
+
+theorem exitQuery_deleted {s s' : St α} {fr : Frame α} (he : exitQuery s fr = some s') : s'.deleted = s.deleted := by
+  unfold exitQuery at he
+  simp only at he
+  split at he
+  · simp at he
+  · rename_i s1 hs1
+    have h1 : s1.deleted = s.deleted := by
+      split at hs1
+      · split at hs1
+        · simp at hs1
+        · simp only [Option.some.injEq] at hs1; subst hs1; rfl
+      · simp only [Option.some.injEq] at hs1; subst hs1; rfl
+    split at he
+    · simp only [Option.some.injEq] at he; subst he; exact h1
+    · simp only [Option.some.injEq] at he; subst he; exact h1
+    · simp at he
+
+theorem succLoop_deleted (A : Arith α) (bb : Bool) (args : List NT) (c : α) (comb : List Nat) :
+    ∀ (rem i : Nat) (s s' : St α), succLoop A bb args c comb rem i s = some s' → s'.deleted = s.deleted := by
+  intro rem
+  induction rem with
+  | zero => intro i s s' h; simp only [succLoop, Option.some.injEq] at h; subst h; rfl
+  | succ rem ih =>
+    intro i s s' h
+    simp only [succLoop] at h
+    split at h
+    · split at h
+      · simp at h
+      · split at h
+        · split at h
+          · simp only [Option.some.injEq] at h; subst h; rfl
+          · exact ih _ _ _ h
+        · split at h
+          · split at h
+            · simp at h
+            · split at h
+              · simp only [Option.some.injEq] at h; subst h; rfl
+              · have := ih _ _ _ h
+                exact this
+          · simp at h
+    · simp at h
 
 theorem ensureBank_spec {s s' : St α} {S : NT} {ci : Nat} (he : s.ensureBank S ci = some s') :
     s'.queueNt = s.queueNt ∧ s'.bankDer = s.bankDer ∧ BMono s s' ∧ BMono s' s ∧ (BInv s → BInv s') := by
@@ -420,7 +501,7 @@ theorem frok_none {E : Env α} {s : St α} {L : NT → List (Sym × Nat)} {fr : 
   unfold FrOK; rw [h]; trivial
 
 theorem frok_of_eq {E : Env α} {s s' : St α} {L : NT → List (Sym × Nat)} {fr : Frame α} (h1 : s'.bankNt = s.bankNt)
-    (h2 : s'.bankDer = s.bankDer) (h3 : s'.queueNt = s.queueNt) (h : FrOK E s L fr) : FrOK E s' L fr := by
+    (h2 : s'.bankDer = s.bankDer) (h3 : s'.queueNt = s.queueNt) (h4 : DSub s s') (h : FrOK E s L fr) : FrOK E s' L fr := by
   unfold FrOK at *
   split
   · trivial
@@ -432,44 +513,91 @@ theorem frok_of_eq {E : Env α} {s s' : St α} {L : NT → List (Sym × Nat)} {f
     have m2 : BMono s' s := BMono.of_eq h1.symm
     refine ⟨args, w, c0, done, a1, a2, ?_, ?_, ?_, a6, a7, ?_, ?_⟩
     · rw [h2]; exact a3
-    · exact a4.mono (fun kids hk => m2.inBank hk) (fun _ _ _ hp => by rw [h2]; exact hp) m1 (Or.inr ⟨rfl, fun _ h => h⟩)
+    · exact a4.mono (fun kids hk => m2.inBank hk) (fun _ _ _ hp => by rw [h2]; exact hp) m1 h4 (Or.inr ⟨rfl, fun _ h => h⟩)
     · rw [h3]; exact a5
     · intro tup ht hin; exact a8 tup ht (m2.inBank hin)
     · intro tup ht
       obtain ⟨ps, hps, hp, hk⟩ := a9 tup ht
-      exact ⟨ps, hps, by rw [h2]; exact hp, hk.mono m1⟩
+      exact ⟨ps, hps, by rw [h2]; exact hp, hk.mono m1 h4⟩
 
-/-- the invariant after `bank[ci].append(p)`: `p` is new, and the pending elements / limbo entries of its rule
-    are ahead of it (vacuous for a rule without arguments) -/
+/-- the invariant after `bank[ci].append(p)`: `p` is new, accepted, not deleted, and the pending elements / limbo
+    entries of its rule are ahead of it (vacuous for a rule without arguments) -/
 theorem ninv_append {E : Env α} {s : St α} {L : NT → List (Sym × Nat)} {S : NT} {ci : Nat} {b : AList Nat (List Prog)}
     {l : List Prog} {P : Sym} {kids : List Prog} (hN : NInv E s L) (hb : AList.lookup S s.bankNt = some b)
     (hl : AList.lookup ci b = some l) (hnew : ¬ InBank s S (.node P kids))
     (hH : ∀ h d, AList.lookup S s.queueNt = some h → d ∈ h → d.P = P → ∀ args w, E.G.rule? S P = some (args, w) →
       args ≠ [] ∧ ∃ c ps, PossAt s.bankDer args c ps ∧ KidsIn s ps kids ∧ c < d.comb)
-    (hLm : ∀ c1, (P, c1) ∉ L S) :
+    (hLm : ∀ c1, (P, c1) ∉ L S) (hacc : E.filter (.node P kids) = true) (hnd : (Tree.node P kids : Prog) ∉ s.deleted) :
     NInv E { s with bankNt := AList.insert S (AList.insert ci (l ++ [.node P kids]) b) s.bankNt } L := by
   have hm := bmono_append (p := .node P kids) hb hl
-  refine ⟨binv_append hb hl hN.binv hnew, ?_, ?_⟩
+  have hds : DSub s { s with bankNt := AList.insert S (AList.insert ci (l ++ [.node P kids]) b) s.bankNt } := DSub.of_eq rfl
+  refine ⟨binv_append hb hl hN.binv hnew, ?_, ?_, ?_, ?_⟩
   · intro S' hh d hlk hd args w kids' hrule hin
     obtain ⟨c', hin⟩ := hin
     rcases (inBankAt_append hb hl S' c' _).mp hin with a | a
     · obtain ⟨hne, c, ps, h1, h2, h3⟩ := hN.heapc S' hh d hlk hd args w kids' hrule ⟨c', a⟩
-      exact ⟨hne, c, ps, h1, h2.mono hm, h3⟩
+      exact ⟨hne, c, ps, h1, h2.mono hm hds, h3⟩
     · obtain ⟨e1, _, e3⟩ := a
       subst e1
       simp only [Tree.node.injEq] at e3
       obtain ⟨e3, e4⟩ := e3
       subst e4
       obtain ⟨hne, c, ps, h1, h2, h3⟩ := hH hh d hlk hd e3 args w (e3 ▸ hrule)
-      exact ⟨hne, c, ps, h1, h2.mono hm, Or.inl h3⟩
+      exact ⟨hne, c, ps, h1, h2.mono hm hds, Or.inl h3⟩
   · intro S' P' c0 hmem args w kids' hrule hin
     obtain ⟨c', hin⟩ := hin
     rcases (inBankAt_append hb hl S' c' _).mp hin with a | a
     · obtain ⟨hne, c, ps, h1, h2, h3⟩ := hN.limboc S' P' c0 hmem args w kids' hrule ⟨c', a⟩
-      exact ⟨hne, c, ps, h1, h2.mono hm, h3⟩
+      exact ⟨hne, c, ps, h1, h2.mono hm hds, h3⟩
     · obtain ⟨e1, _, e3⟩ := a
       subst e1
       simp only [Tree.node.injEq] at e3
       exact absurd (e3.1 ▸ hmem) (hLm c0)
+  · intro S' c' q hin
+    rcases (inBankAt_append hb hl S' c' q).mp hin with a | a
+    · exact hN.accb S' c' q a
+    · rw [a.2.2]; exact hacc
+  · intro p hp S' c' hin
+    have hp' : p ∈ s.deleted := hp
+    rcases (inBankAt_append hb hl S' c' p).mp hin with a | a
+    · exact hN.delout p hp' S' c' a
+    · rw [a.2.2] at hp'; exact hnd hp'
+
+theorem addDeleted_sub (s : St α) (p : Prog) : DSub s (s.addDeleted p) := by
+  intro q hq
+  unfold St.addDeleted; split
+  · exact hq
+  · exact List.mem_append_left _ hq
+
+theorem mem_addDeleted_iff (s : St α) (p q : Prog) (h : q ∈ (s.addDeleted p).deleted) : q ∈ s.deleted ∨ q = p := by
+  unfold St.addDeleted at h
+  split at h
+  · exact Or.inl h
+  · rcases List.mem_append.mp h with h1 | h1
+    · exact Or.inl h1
+    · exact Or.inr (by simpa using h1)
+
+/-- `self.deleted.add(p)` for a program the filter rejects -/
+theorem ninv_addDeleted {E : Env α} {s : St α} {L : NT → List (Sym × Nat)} (p : Prog) (hN : NInv E s L)
+    (hrej : E.filter p = false) : NInv E (s.addDeleted p) L := by
+  have e := addDeleted_fields s p
+  have m1 : BMono s (s.addDeleted p) := BMono.of_eq e.1
+  have m2 : BMono (s.addDeleted p) s := BMono.of_eq e.1.symm
+  have hd := addDeleted_sub s p
+  refine ⟨binv_of_eq e.1 hN.binv, ?_, ?_, ?_, ?_⟩
+  · intro S hh d hl hdm
+    rw [e.2.2] at hl
+    exact (hN.heapc S hh d hl hdm).mono (fun kids hk => m2.inBank hk) (fun _ _ _ hp => by rw [e.2.1]; exact hp) m1 hd
+      (Or.inr ⟨rfl, fun _ h => h⟩)
+  · intro S P c0 hm
+    exact (hN.limboc S P c0 hm).mono (fun kids hk => m2.inBank hk) (fun _ _ _ hp => by rw [e.2.1]; exact hp) m1 hd
+      (Or.inr ⟨rfl, fun _ h => h⟩)
+  · intro S c q hin; exact hN.accb S c q (m2 S c q hin)
+  · intro q hq S c hin
+    rcases mem_addDeleted_iff s p q hq with h1 | h1
+    · exact hN.delout q h1 S c (m2 S c q hin)
+    · subst h1
+      have := hN.accb S c q (m2 S c q hin)
+      rw [hrej] at this; cases this
 
 end PS.CD
